@@ -671,3 +671,269 @@ Proof.
   - inversion H; subst. apply Qeq; reflexivity.
   - inversion H; subst. apply Qeq; [|reflexivity]. unfold kl. cbn [mainq set_tr]. rewrite mainq_class_flags. reflexivity.
 Qed.
+
+(* ------------------------------------------------------------------ *)
+(** * Facts about the monitor state that follow from the trace alone *)
+
+Lemma cause_eqb_refl c : cause_eqb c c = true.
+Proof. destruct c; simpl; auto; apply N.eqb_refl. Qed.
+Lemma cause_eqb_eq c d : cause_eqb c d = true -> c = d.
+Proof. destruct c, d; simpl; intros H; try discriminate; auto; apply N.eqb_eq in H; subst; reflexivity. Qed.
+
+Lemma has_req_in l a c : In (a, c) l -> has_req l a c = true.
+Proof.
+  induction l as [|[b d] r IH]; simpl; [contradiction|]. intros [E|IN].
+  - inversion E; subst. rewrite N.eqb_refl, cause_eqb_refl. reflexivity.
+  - rewrite (IH IN). apply orb_true_r.
+Qed.
+Lemma has_req_cons l b d a c : has_req l a c = true -> has_req ((b, d) :: l) a c = true.
+Proof. simpl. intros ->. apply orb_true_r. Qed.
+
+Definition stopfail (c : cause) : Prop := match c with CStop | CFail _ => True | _ => False end.
+
+Record KF (m : sK) (t : list ev) : Prop := mkKF {
+  kf_req : forall a c, In (EReq a c) t -> has_req (k_reqs m) a c = true;
+  kf_body : forall a u c, k_body m = Some (a, u, Some c) -> has_req (k_reqs m) a c = true /\ stopfail c }.
+
+Lemma monK_facts t : forall m, monr stepK iK t = Some m -> KF m t.
+Proof.
+  induction t as [|e t IH]; simpl; intros m M.
+  - inversion M; subst. split; simpl; [contradiction | discriminate].
+  - destruct (monr stepK iK t) as [m0|]; [|discriminate]. destruct (IH m0 eq_refl) as [F1 F2].
+    assert (G : forall b (x : sK), guard b x = Some m -> b = true /\ m = x).
+    { intros b x. unfold guard. destruct b; intros Q; inversion Q; auto. }
+    assert (SAME : m = m0 -> (forall a c, e <> EReq a c) -> KF m (e :: t)).
+    { intros -> NE. split; [|exact F2]. intros a c [E|IN]; [exfalso; eapply NE; eauto | auto]. }
+    destruct e; simpl in M; try (apply SAME; [congruence | intros; discriminate]).
+    + (* ERun *) inversion M; subst. split; cbn [k_reqs k_body]; [intros b c [E|IN]; [discriminate | auto] | intros b v c E; discriminate].
+    + (* EMeth *) inversion M; subst. split; cbn [k_reqs k_body]; [intros b c [E|IN]; [discriminate | auto] | intros b v c E; discriminate].
+    + (* EPrep *) inversion M; subst. split; cbn [k_reqs k_body]; [intros b c [E|IN]; [discriminate | auto] | intros b v c E; discriminate].
+    + (* EEnd *)
+      destruct (k_body m0) as [[[b v] fr]|] eqn:B; [destruct (N.eqb uid v)|]; inversion M; subst.
+      * split; cbn [k_reqs k_body]; [intros x c [E|IN]; [discriminate | auto] | intros x w c E; discriminate].
+      * apply SAME; auto; intros; discriminate.
+      * apply SAME; auto; intros; discriminate.
+    + (* EReq *)
+      inversion M; subst; clear M. split; cbn [k_reqs k_body].
+      * intros b d [E|IN]; [inversion E; subst; apply has_req_in; left; reflexivity | apply has_req_cons; auto].
+      * intros b v d E. destruct (k_body m0) as [[[b0 v0] [c0|]]|] eqn:B; try discriminate.
+        -- inversion E; subst. destruct (F2 _ _ _ eq_refl) as [A S]. split; [apply has_req_cons; exact A | exact S].
+        -- destruct (N.eqb a b0) eqn:Q.
+           ++ apply N.eqb_eq in Q. subst b0. destruct c; inversion E; subst; (split; [apply has_req_in; left; reflexivity | exact I]).
+           ++ discriminate.
+    + (* ENotify *) apply G in M as [_ ->]. apply SAME; auto; intros; discriminate.
+    + (* EValDrop *) apply G in M as [_ ->]. apply SAME; auto; intros; discriminate.
+Qed.
+
+(* ------------------------------------------------------------------ *)
+(** * The relation between the monitor state and the configuration *)
+
+Fixpoint endb (k : list mop) : option (N * fin) :=
+  match k with [] => None | MEndBody u f :: _ => Some (u, f) | _ :: r => endb r end.
+
+Definition fin_actor (f : fin) : option N := match f with FMeth a => Some a | FPrep a _ => Some a | FNone => None end.
+Definition fbody (k : list mop) : option N := match endb k with Some (_, f) => fin_actor f | None => None end.
+Definition lastdie (s : st) : option cause := last (map snd (dies s)) None.
+Definition openbody (k : list mop) (s : st) : option (N * N * option cause) :=
+  match endb k with
+  | Some (u, f) => match fin_actor f with Some a => Some (a, u, lastdie s) | None => None end
+  | None => None
+  end.
+
+Lemma endb_pre pre k : existsb is_endb pre = false -> endb (pre ++ k) = endb k.
+Proof.
+  induction pre as [|x pre IH]; simpl; auto. intros H. apply orb_false_elim in H as [H1 H2]. destruct x; try discriminate H1; auto.
+Qed.
+Lemma endb_cons x k : is_endb x = false -> endb (x :: k) = endb k.
+Proof. destruct x; simpl; auto; discriminate. Qed.
+
+Definition cok (m : sK) (a : N) (c : cause) : Prop :=
+  match c with
+  | CDrop => nget (k_expect m) a = None
+  | _ => has_req (k_reqs m) a c = true /\ (nget (k_expect m) a = None \/ nget (k_expect m) a = Some c)
+  end.
+
+Definition gone (s : st) (a : N) : Prop := exists y, aget (actors s) a = Some y /\ a_notify y = None.
+
+Definition pok (m : sK) (s : st) (x : mop) : Prop :=
+  match x with
+  | MTerminate a c => cok m a c \/ gone s a
+  | MRetInvoke r (Some (MCause c)) => forall a, nshape a r -> cok m a c
+  | _ => True
+  end.
+
+Definition tgt (x : mop) : option N := match x with MTerminate a _ | MValDrop a => Some a | _ => None end.
+
+Definition kq (t : list ev) (c : citem) : Prop :=
+  match ci_kind c with KKill a e => In (EReq a (CKill e)) t | _ => True end.
+
+Record RK (m : sK) (b : option N) (k : list mop) (s : st) : Prop := mkRK {
+  k_b : k_body m = openbody k s;
+  k_f : b = fbody k;
+  k_y : forall a c0, nget (k_expect m) a = Some c0 -> exists x, aget (actors s) a = Some x /\ (a_notify x = None \/ In (MTerminate a c0) k);
+  k_p : forall x, In x k -> pok m s x;
+  k_z : forall x a, In x k -> tgt x = Some a -> fbody k <> Some a;
+  k_cx : forall a p d, In (XCx a p, d) (dies s) -> exists x, aget (actors s) a = Some x;
+  k_ql : forall ci, In ci (kl s) -> kq (tr s) ci;
+  k_qr : forall ci, In (MRunItem ci) k -> kq (tr s) ci }.
+
+Definition BadF (t : list ev) : Prop := monr stepF None t = None.
+
+Lemma BadF_ext evs t : BadF t -> BadF (evs ++ t).
+Proof. unfold BadF. intros H. induction evs as [|e l IH]; simpl; auto. rewrite IH. reflexivity. Qed.
+
+Definition IK (k : list mop) (s : st) : Prop :=
+  BadF (tr s) \/ exists m b, monr stepK iK (tr s) = Some m /\ monr stepF None (tr s) = Some b /\ (k = [] \/ RK m b k s).
+
+(* ------------------------------------------------------------------ *)
+(** * Frames against the pending body end (from FK) *)
+
+Lemma FK_pop k cs : FK k cs -> fr_ok (poppers k) cs.
+Proof. intros (w1 & w2 & -> & _ & P & F). rewrite poppers_app, P, app_nil_r. exact F. Qed.
+
+Lemma endb_poppers k : endb (poppers k) = endb k.
+Proof.
+  induction k as [|x k IH]; simpl; auto. unfold poppers in *. simpl. destruct x; simpl; auto.
+Qed.
+
+Lemma fr_ok_endb ps cs : fr_ok ps cs -> forall u f, endb ps = Some (u, f) -> exists c, last cs XNone = c /\ endm f c /\ cs <> [].
+Proof.
+  induction 1; simpl; intros u0 f0 E; try discriminate.
+  - inversion E; subst. exists c. split; [reflexivity | split; [assumption | discriminate]].
+  - destruct (IHfr_ok _ _ E) as (c & L & EM & NE). exists c. split; [|split; [exact EM | discriminate]].
+    destruct cs; [contradiction NE; reflexivity | exact L].
+Qed.
+
+Lemma fr_ok_noend ps cs : fr_ok ps cs -> endb ps = None -> forall a p, ~ In (XCx a p) cs.
+Proof.
+  induction 1; simpl; intros E a p IN; try discriminate; try contradiction.
+  - destruct IN as [Q|[]]. discriminate.
+  - destruct IN as [Q|IN]; [discriminate|]. eapply IHfr_ok; eauto.
+Qed.
+
+Lemma FK_frames k s : FK k (ctxs s) -> endb k <> None -> dies s <> [].
+Proof.
+  intros F NE. apply FK_pop in F. destruct (endb k) as [[u f]|] eqn:E; [|contradiction NE; reflexivity].
+  rewrite <- endb_poppers in E. destruct (fr_ok_endb _ _ F _ _ E) as (_ & _ & _ & N).
+  unfold ctxs in N. unfold dies. destruct (frames s); [contradiction N; reflexivity | discriminate].
+Qed.
+
+(* a non-calm head: no frame, no body end pending *)
+Lemma FK_flat mo k0 cs : FK (mo :: k0) cs -> calm mo = false -> cs = [] /\ endb k0 = None /\ poppers k0 = [].
+Proof.
+  intros (w1 & w2 & E & C & P & F) NC. destruct w1 as [|x w1].
+  - simpl in E. subst w2. inversion F; subst. assert (PK : poppers k0 = []).
+    { rewrite poppers_cons in P. destruct (is_popper mo); [discriminate | exact P]. }
+    split; [reflexivity | split; [|exact PK]]. rewrite <- endb_poppers, PK. reflexivity.
+  - simpl in E. inversion E; subst. simpl in C. rewrite NC in C. discriminate.
+Qed.
+
+Lemma ctxs_dies s : ctxs s = map fst (dies s).
+Proof. unfold ctxs, dies. rewrite map_map. reflexivity. Qed.
+
+(* the head is the end of the body: one frame, nothing else to pop *)
+Lemma FK_endbody u f k0 s : FK (MEndBody u f :: k0) (ctxs s) ->
+  exists fr, frames s = [fr] /\ endm f (f_ctx fr) /\ endb k0 = None.
+Proof.
+  intros F. apply FK_pop in F. rewrite poppers_cons in F. simpl in F.
+  remember (MEndBody u f :: poppers k0) as ps eqn:EP. remember (ctxs s) as cs eqn:EC.
+  destruct F as [|u1 f1 c EM| |ps cs F]; try discriminate EP.
+  inversion EP; subst u1 f1. unfold ctxs in EC. destruct (frames s) as [|fr [|fr2 rest]]; try discriminate EC.
+  simpl in EC. inversion EC; subst c. exists fr. split; [reflexivity | split; [exact EM|]].
+  rewrite <- endb_poppers. rewrite <- H2. reflexivity.
+Qed.
+
+(* the top frame has Core access as an actor: it is the only frame, and the pending body end is the one of that actor *)
+Lemma FK_cx k s a p loc die rest : FK k (ctxs s) -> frames s = mkFrame (XCx a p) loc die :: rest ->
+  rest = [] /\ exists u f, endb k = Some (u, f) /\ fin_actor f = Some a.
+Proof.
+  intros F FR. apply FK_pop in F. unfold ctxs in F. rewrite FR in F. simpl in F.
+  remember (poppers k) as ps eqn:EP. remember (XCx a p :: map f_ctx rest) as cs eqn:EC.
+  destruct F as [|u1 f1 c EM| |ps cs F]; try discriminate EC.
+  inversion EC; subst c. split; [destruct rest; [reflexivity | discriminate]|]. exists u1, f1.
+  split; [rewrite <- endb_poppers, <- EP; reflexivity|]. inversion EM; subst; reflexivity.
+Qed.
+
+Lemma FK_stk k s : FK k (ctxs s) -> cur_ctx s = XStk -> fbody k = None.
+Proof.
+  intros F CX. apply FK_pop in F. unfold cur_ctx in CX. unfold ctxs in F. destruct (frames s) as [|fr rest]; [discriminate|].
+  simpl in F. rewrite CX in F. unfold fbody. rewrite <- endb_poppers.
+  remember (poppers k) as ps eqn:EP. remember (XStk :: map f_ctx rest) as cs eqn:EC.
+  destruct F as [|u1 f1 c EM| |ps cs F]; try discriminate EC; simpl; auto.
+  inversion EC; subst c. inversion EM; subst. reflexivity.
+Qed.
+
+Lemma lastdie_cons s s' x : dies s <> [] -> dies s' = x :: dies s -> lastdie s' = lastdie s.
+Proof. unfold lastdie. intros NE ->. simpl. destruct (dies s); [contradiction NE; reflexivity | reflexivity]. Qed.
+
+Lemma dstep_lastdie mo k0 s pre s' :
+  FK (mo :: k0) (ctxs s) -> FK (pre ++ k0) (ctxs s') -> is_endb mo = false -> existsb is_endb pre = false ->
+  dstep s s' -> endb k0 <> None -> lastdie s' = lastdie s.
+Proof.
+  intros F F' EM EP [D|[(c & _ & D)|(d & D)]] NE.
+  - unfold lastdie. rewrite D. reflexivity.
+  - eapply lastdie_cons; [|exact D]. apply (FK_frames _ _ F). rewrite (endb_cons _ _ EM). exact NE.
+  - symmetry. eapply lastdie_cons; [|exact D]. apply (FK_frames _ _ F'). rewrite (endb_pre _ _ EP). exact NE.
+Qed.
+
+(* ------------------------------------------------------------------ *)
+(** * Steps without an event of the cause monitor *)
+
+Lemma kq_ext evs t ci : kq t ci -> kq (evs ++ t) ci.
+Proof. unfold kq. destruct (ci_kind ci); auto. intros H. apply in_or_app. auto. Qed.
+
+Lemma kq_nokill t ci : iskill ci = false -> kq t ci.
+Proof. unfold kq, iskill. destruct (ci_kind ci); auto. discriminate. Qed.
+
+Lemma pok_nodly m s x : dly x = false -> pok m s x.
+Proof. destruct x; simpl; auto; try discriminate. destruct m0 as [[v|c]|]; auto. discriminate. Qed.
+
+Lemma tgt_dly x a : tgt x = Some a -> dly x = true.
+Proof. destruct x; simpl; try discriminate; auto. Qed.
+
+Lemma nodly_in pre x : existsb dly pre = false -> In x pre -> dly x = false.
+Proof.
+  intros H IN. destruct (dly x) eqn:D; auto. assert (existsb dly pre = true) by (apply existsb_exists; eauto). congruence.
+Qed.
+
+Lemma gone_mono s s' a : nmono s s' -> gone s a -> gone s' a.
+Proof. intros NM (y & A & G). destruct (NM _ _ A) as (y' & A' & [E|E]); exists y'; split; auto. congruence. Qed.
+
+Lemma pok_mono m s s' x : nmono s s' -> pok m s x -> pok m s' x.
+Proof. intros NM. destruct x; simpl; auto. intros [H|H]; [left; exact H | right; eapply gone_mono; eauto]. Qed.
+
+Lemma RK_neutral m b mo k0 s pre s' :
+  FK (mo :: k0) (ctxs s) -> FK (pre ++ k0) (ctxs s') ->
+  neutralK s pre s' -> ksub s pre s' -> is_endb mo = false -> (forall a c, mo <> MTerminate a c) ->
+  monr stepK iK (tr s) = Some m -> monr stepF None (tr s) = Some b -> RK m b (mo :: k0) s ->
+  monr stepK iK (tr s') = Some m /\ monr stepF None (tr s') = Some b /\ RK m b (pre ++ k0) s'.
+Proof.
+  intros F F' ((evs & TR & PB) & NM & EP & DP_ & DS) [Q1 Q2] EM NT MK MF [Kb Kf Ky Kp Kz Kcx Kql Kqr].
+  split; [rewrite TR; apply monK_block; auto|]. split; [rewrite TR; apply monF_block; auto|].
+  assert (EB : endb (pre ++ k0) = endb (mo :: k0)) by (rewrite (endb_pre _ _ EP), (endb_cons _ _ EM); reflexivity).
+  assert (FB : fbody (pre ++ k0) = fbody (mo :: k0)) by (unfold fbody; rewrite EB; reflexivity).
+  constructor.
+  - rewrite Kb. unfold openbody. rewrite EB. destruct (endb (mo :: k0)) as [[u f]|] eqn:E; [|reflexivity].
+    destruct (fin_actor f); [|reflexivity]. rewrite (dstep_lastdie _ _ _ _ _ F F' EM EP DS); [reflexivity|].
+    rewrite (endb_cons _ _ EM) in E. congruence.
+  - rewrite FB. exact Kf.
+  - intros a c0 H. destruct (Ky _ _ H) as (x & A & D). destruct (NM _ _ A) as (x' & A' & N'). exists x'. split; [exact A'|].
+    destruct D as [D|D]; [left; destruct N' as [N'|N']; congruence|].
+    destruct N' as [N'|N']; [|left; exact N']. right. apply in_or_app. right. destruct D as [D|D]; [exfalso; eapply NT; eauto | exact D].
+  - intros x IN. apply in_app_or in IN as [IN|IN].
+    + apply pok_nodly. eapply nodly_in; eauto.
+    + eapply pok_mono; [exact NM|]. apply Kp. right. exact IN.
+  - intros x a IN T. rewrite FB. apply in_app_or in IN as [IN|IN].
+    + apply tgt_dly in T. rewrite (nodly_in _ _ DP_ IN) in T. discriminate.
+    + apply (Kz x a); [right; exact IN | exact T].
+  - intros a p d IN. assert (IN0 : In (XCx a p, d) (dies s)).
+    { destruct DS as [D|[(c & NC & D)|(d0 & D)]].
+      - rewrite <- D. exact IN.
+      - rewrite D in IN. destruct IN as [E|IN]; [inversion E; subst; contradiction | exact IN].
+      - rewrite D. right. exact IN. }
+    destruct (Kcx _ _ _ IN0) as (x & A). destruct (NM _ _ A) as (x' & A' & _). eauto.
+  - intros ci IN. rewrite TR. apply kq_ext. apply Kql. apply Q1. exact IN.
+  - intros ci IN. rewrite TR. apply kq_ext. apply in_app_or in IN as [IN|IN].
+    + destruct (iskill ci) eqn:K; [apply Kql; apply Q2; auto | apply kq_nokill; exact K].
+    + apply Kqr. right. exact IN.
+Qed.
